@@ -75,36 +75,32 @@ def dedupe(progs):
 
 
 def programs(tier: str, flavour: str = "full"):
-    """flavour: 'full' (value-level checks), 'light' (expensive per-case oracles)."""
+    """flavour: 'light' < 'full' < 'wide'.  (tier is kept for the callers' convenience: a check picks
+    one flavour for its quick tier and the next larger one for its thorough tier.)"""
     P = space.enumerate_programs
-    if tier == "quick":
-        if flavour == "light":
-            progs = P(2, 3) + P(2, 4, min_total_order=4, repeats=False, ops="+*") + P(3, 2, ops="+*", min_leaves=3)
-            progs += P(2, 2, literals=("2",), min_leaves=2, repeats=False)
-        else:
-            progs = P(2, 4)
-            progs += P(3, 3, min_leaves=3, repeats=False)
-            progs += P(2, 3, literals=LITS_QUICK, min_leaves=2, repeats=False)
-            progs += P(3, 2, literals=("2",), min_leaves=3, repeats=False, ops="+*")
-            # order-3 copies / transposes: the only programs of the quick tier with 3-level buckets
-            progs += P(1, 6, min_total_order=6)
-            # 4-leaf products of two sums, each with a term that lacks a contracted index (128 programs)
-            progs += products_of_partial_sums()
-            progs += renamed_base()
+    if flavour == "light":
+        progs = P(2, 3) + P(2, 4, min_total_order=4, repeats=False, ops="+*") + P(3, 2, ops="+*", min_leaves=3)
+        progs += P(2, 2, literals=("2",), min_leaves=2, repeats=False)
+    elif flavour == "full":
+        progs = P(2, 4)
+        progs += P(3, 3, min_leaves=3, repeats=False)
+        progs += P(2, 3, literals=LITS_QUICK, min_leaves=2, repeats=False)
+        progs += P(3, 2, literals=("2",), min_leaves=3, repeats=False, ops="+*")
+        # order-3 copies / transposes: the only programs of this space with 3-level buckets
+        progs += P(1, 6, min_total_order=6)
+        # 4-leaf products of two sums, each with a term that lacks a contracted index (128 programs)
+        progs += products_of_partial_sums()
+        progs += renamed_base()
     else:
-        if flavour == "light":
-            progs = P(2, 4) + P(3, 3, min_leaves=3, repeats=False) + P(2, 5, min_total_order=5, repeats=False, ops="+*")
-            progs += P(2, 3, literals=LITS_QUICK, min_leaves=2, repeats=False)
-        else:
-            progs = P(2, 5)
-            progs += P(3, 4, min_leaves=3)
-            progs += P(2, 6, min_total_order=6, repeats=False, ops="+*")
-            progs += P(4, 3, min_leaves=4, repeats=False, ops="+*")
-            progs += P(2, 4, literals=LITS_THOROUGH, min_leaves=2)
-            progs += P(3, 3, literals=("2", "2.5"), min_leaves=3, repeats=False)
-            progs += P(1, 6, min_total_order=6)
-            progs += products_of_partial_sums()
-            progs += renamed_base()
+        progs = P(2, 5)
+        progs += P(3, 4, min_leaves=3)
+        progs += P(2, 6, min_total_order=6, repeats=False, ops="+*")
+        progs += P(4, 3, min_leaves=4, repeats=False, ops="+*")
+        progs += P(2, 4, literals=LITS_THOROUGH, min_leaves=2)
+        progs += P(3, 3, literals=("2", "2.5"), min_leaves=3, repeats=False)
+        progs += P(1, 6, min_total_order=6)
+        progs += products_of_partial_sums()
+        progs += renamed_base()
     # literals whose int32 lowering overflows: 65536 * 65536, 2^32 (the shortcut in identifiable_expression/_to_ir.py)
     progs += P(3, 1, literals=("65536",), min_leaves=3, ops="*", repeats=False, target_orders=(0, 1))
     progs += P(2, 1, literals=("4294967296", "99999999999"), min_leaves=2, ops="*+", repeats=False, target_orders=(0, 1))
@@ -115,10 +111,12 @@ def programs(tier: str, flavour: str = "full"):
 
 def describe(tier, flavour):
     return {
-        "quick/full": "L<=2,S<=4 all shapes incl. repeated tensors; L=3,S<=3; literals {0,2,2.5} with L<=2,S<=3 and "
-                      "{2} with L=3,S<=2; all order-3 copies/transposes (L=1,S=6); the 128 4-leaf products of partial sums (b() + c(i)) * (d() + e(i)); the L<=2,S<=3 space again under a reversed naming (z = y.., i<->k); int32-overflowing literals",
-        "quick/light": "L<=2,S<=3; L=2,S=4 (+,*; no repeats); L=3,S<=2 (+,*); literal 2 with L=2,S<=2",
-        "thorough/full": "L<=2,S<=5; L=3,S<=4; L=2,S=6 (+,*); L=4,S<=3 (+,*); literals {0,1,2,2.5,0.0} L<=2,S<=4; "
-                         "{2,2.5} L=3,S<=3",
-        "thorough/light": "L<=2,S<=4; L=3,S<=3; L=2,S=5 (+,*); literals {0,2,2.5} L<=2,S<=3",
-    }[f"{tier}/{flavour}"]
+        "light": "L<=2,S<=3; L=2,S=4 (+,*; no repeats); L=3,S<=2 (+,*); literal 2 with L=2,S<=2; int32-overflowing literals",
+        "full": "L<=2,S<=4 all shapes incl. repeated tensors; L=3,S<=3; literals {0,2,2.5} with L<=2,S<=3 and {2} with "
+                "L=3,S<=2; all order-3 copies/transposes (L=1,S=6); the 128 4-leaf products of partial sums "
+                "(b() + c(i)) * (d() + e(i)); the L<=2,S<=3 space again under a reversed naming (z = y.., i<->k); "
+                "int32-overflowing literals",
+        "wide": "L<=2,S<=5; L=3,S<=4; L=2,S=6 (+,*); L=4,S<=3 (+,*); literals {0,1,2,2.5,0.0} L<=2,S<=4; {2,2.5} "
+                "L=3,S<=3; order-3 copies/transposes; products of partial sums; renamed base space; int32-overflowing "
+                "literals",
+    }[flavour]
